@@ -199,8 +199,22 @@ inline bool stripeClaim(
     IntegerT& outEnd) {
   using Wide = typename StripeCursor<IntegerT>::WideT;
   auto& s = state.stripes[stripeIdx];
-  const IntegerT chunkSize = state.chunkSize;
-  Wide prev = s.next.fetch_add(static_cast<Wide>(chunkSize), std::memory_order_relaxed);
+  // state.chunkSize holds the chunk converted to IntegerT; for narrow signed types a chunk above
+  // the type's maximum is stored wrapped, so recover it through the unsigned type.
+  using UnsignedT = typename std::make_unsigned<IntegerT>::type;
+  const Wide chunkSize = static_cast<Wide>(static_cast<UnsignedT>(state.chunkSize));
+  // Bounded claim: the cursor never moves past the stripe end.  An unconditional
+  // fetch_add(chunkSize) overshoots the end on the last (and on every failed) claim, and wraps
+  // when the stripe ends within a few chunks of the Wide type's maximum (64-bit index types).
+  Wide prev = s.next.load(std::memory_order_relaxed);
+  Wide endWide = prev;
+  while (prev < s.end) {
+    endWide = (s.end - prev > chunkSize) ? prev + chunkSize : s.end;
+    if (s.next.compare_exchange_weak(
+            prev, endWide, std::memory_order_relaxed, std::memory_order_relaxed)) {
+      break;
+    }
+  }
   if (prev >= s.end) {
     // Stripe exhausted before this claim. Try to be the one to retire it.
     bool expected = false;
@@ -220,8 +234,7 @@ inline bool stripeClaim(
     return false;
   }
   outBegin = static_cast<IntegerT>(prev);
-  Wide endWide = prev + static_cast<Wide>(chunkSize);
-  outEnd = static_cast<IntegerT>(endWide > s.end ? s.end : endWide);
+  outEnd = static_cast<IntegerT>(endWide);
   return true;
 }
 
